@@ -8,7 +8,24 @@ package agreement
 // Other parts: network (identity / meta messages), node (netprio messages, catchpoint chunks,
 // EncodedBlockCert), data (transaction-group decoding of the txn handler).
 //
-// Mutants (bin/mut, quick tier): see checks.d/C41.json / final report.
+// Known finding on the unchanged tree: keys C41:map-key-bound-unenforced:basics.TealKeyValue /
+// basics.StateDelta (/verif/findings/C41-map-key-bound-unenforced).
+//
+// Mutants (bin/mut, quick tier, all five parts run; all DETECTED in the final harness):
+//   agreement/msgp_gen.go  Certificate "Votes" allocbound check -> `if false`
+//       -> C41:above-bound (33 700 elements allocated from a dc-mutated header; also seen through
+//          rpcs.EncodedBlockCert in part node)
+//   data/transactions/msgp_gen.go  Transaction "note" allocbound check -> `if false`
+//       -> C41:above-bound-accepted (over-bound instance, 4097-byte note)
+//   data/transactions/msgp_gen.go  EvalDelta.InnerTxns allocbound check disabled
+//       -> C41:above-bound (40 644 inner transactions allocated)
+//   network/msgp_gen.go  identityChallenge.PublicAddress check in the STRUCT-FROM-ARRAY path
+//       -> first MISSED (seeds were map-form only); the harness was strengthened with array-form
+//          seeds and array-form over-bound instances -> C41:above-bound-accepted
+//   ledger/msgp_gen.go  CatchpointSnapshotChunkV6.Balances check in the struct-from-array path
+//       -> first MISSED, DETECTED after the same strengthening (C41:above-bound)
+//   data/txHandler.go  decodeMsg: group slice growth removed -> C41:panic:data.decodeMsg
+//   data/txHandler.go  decodeMsg: group limit 2x -> C41:above-bound:data.decodeMsg (17 txns)
 
 import (
 	"bytes"
